@@ -256,7 +256,7 @@ CHECKS = {
         'level': 'model_checking',
         'jobs': [
             T('MC_Inproc', 'Inproc.cfg'), C('inproc', 'TestInproc', 'TraceInproc'),
-            {'type': 'custom', 'name': 'lock-static', 'fn': lock_static, 'want': 'bugs'},
+            {'type': 'custom', 'name': 'lock-static', 'fn': lock_static},   # lock bugs and lock-order cycles (two calls that wait for each other for ever)
             T('MC_Core', 'Core_C14_sync.cfg'),
             C('errors', 'TestErrorsReal', 'TraceErrors', trivial_len=3),
             C('core', 'TestCore', 'TraceCore', n={'quick': 60, 'thorough': 800}),
@@ -537,6 +537,7 @@ CHECKS = {
     'C14': {
         'level': 'model_checking',
         'jobs': [
+            C('errors', 'TestErrorsReal', 'TraceErrors'),
             T('MC_Inproc', 'Inproc.cfg'), C('inproc', 'TestInproc', 'TraceInproc'),
             T('MC_Core', 'Core_C14_async.cfg'),
             T('MC_Core', 'Core_C14_sync.cfg'),
